@@ -248,6 +248,8 @@ class Builtins:
         v = it.force(args[0], fr)
         if is_none(v):
             it.raise_exc("TypeError")
+        if isinstance(v, (PyList, PyTuple)):
+            return PyList(list(v.items))
         s = it.iter_to_seq(v, fr)
         return SV(TSeq(s.ty.elem), s.term)
 
@@ -310,6 +312,10 @@ class Builtins:
         v = it.force(v, fr)
         if isinstance(v, SV) and isinstance(v.ty, TSet):
             return v
+        if isinstance(v, (PyList, PyTuple)):
+            if not v.items:
+                return VGen("emptyset")
+            v = it.seq_of(v)
         if isinstance(v, SV) and isinstance(v.ty, TSeq):
             x = it.bound("sx", v.ty.elem.sort())
             return SV(TSet(v.ty.elem), z3.Lambda([x], z3.Contains(v.term, z3.Unit(x))))
@@ -518,7 +524,12 @@ class Builtins:
             self.writeback(it, node, SV(t, z3.Store(s.term, k, z3.BoolVal(True))), fr)
             return NONE
         if name == "union":
-            o = it.coerce(args[0], t)
+            o = args[0]
+            if not (isinstance(o, SV) and isinstance(o.ty, TSet)):
+                o = self.b_set(it, [o], {}, fr)
+                if isinstance(o, VGen) and o.kind == "emptyset":
+                    return s
+            o = it.coerce(o, t)
             k = it.bound("uk", t.k.sort())
             return SV(t, z3.Lambda([k], z3.Or(z3.Select(s.term, k), z3.Select(o.term, k))))
         raise Unsupported(f"set method {name}")
@@ -674,6 +685,10 @@ class Builtins:
         collect = [] if not (fr.pure or spec_mode) else None
         saved_collect = getattr(it, "raise_collect", None)
         it.raise_collect = collect
+        heap_before = dict(it.heap)
+        alive_before = it.alive
+        saved_log = it.alloc_log
+        it.alloc_log = []
         try:
             it.assign(gen.target, elem_at(i), nfr)
             ev = it.eval(node.elt, nfr)
@@ -681,6 +696,12 @@ class Builtins:
             it.pure_ctx.pop()
             facts = it.binder_stack.pop()
             it.raise_collect = saved_collect
+            allocs = it.alloc_log
+            it.alloc_log = saved_log
+        if allocs:
+            self.generalize_allocs(it, i, guard, allocs, heap_before, alive_before)
+        elif any(not it.heap[k].eq(heap_before.get(k, it.heap[k])) for k in it.heap):
+            raise Unsupported("comprehension element with side effects on existing objects")
         if collect:
             # an element whose evaluation raises makes the whole comprehension raise (first one)
             for (exc_name, cond, con) in collect:
@@ -703,6 +724,56 @@ class Builtins:
         it.assume(z3.ForAll([i], z3.Implies(z3.And(i >= 0, i < n), res[i] == ev.term)))
         it.notes.add("map comprehensions: element expression evaluated purely on a generic index")
         return SV(TSeq(ev.ty), res)
+
+    def generalize_allocs(self, it, i, guard, allocs, heap_before, alive_before):
+        """The element expression allocated objects (one family per generic index i).  The state
+        after the whole comprehension: every family member is allocated and initialised as in its
+        own iteration, members of different iterations are distinct, nothing else changed."""
+        j = it.bound("gaj", z3.IntSort())
+        x = it.bound("gax", Ref)
+
+        def is_alloc(t):
+            return any(t.eq(a) for a in allocs)
+        for key, cur in list(it.heap.items()):
+            old = heap_before.get(key)
+            if old is not None and cur.eq(old):
+                continue
+            # the map must be the old map with stores at allocated references only
+            t = cur
+            stores = []
+            while z3.is_app(t) and t.decl().kind() == z3.Z3_OP_STORE:
+                base, idx, val = t.children()
+                if not is_alloc(idx):
+                    raise Unsupported("comprehension element writes a field of an object it did not allocate")
+                stores.append((idx, val))
+                t = base
+            if old is not None and not t.eq(old):
+                raise Unsupported("comprehension element replaces a heap map")
+            base = old if old is not None else t
+            fin = it.fresh_plain(f"Hc_{key[1]}", cur.sort())
+            seen = []
+            for idx, val in stores:  # outermost store first = last write wins
+                if any(idx.eq(s) for s in seen):
+                    continue
+                seen.append(idx)
+                it.assume(z3.ForAll([i], z3.Implies(guard, z3.Select(fin, idx) == val)))
+            it.assume(z3.ForAll([x], z3.Implies(z3.Select(alive_before, x), z3.Select(fin, x) == z3.Select(base, x))))
+            it.heap[key] = fin
+        alive_fin = it.fresh_plain("alive_c", alive_before.sort())
+        it.assume(z3.ForAll([x], z3.Implies(z3.Select(alive_before, x), z3.Select(alive_fin, x))))
+        for a in allocs:
+            it.assume(z3.ForAll([i], z3.Implies(guard, z3.And(z3.Select(alive_fin, a), z3.Not(z3.Select(alive_before, a))))))
+        # distinctness across iterations and families
+        for ai, a in enumerate(allocs):
+            for bi, b in enumerate(allocs):
+                bj = z3.substitute(b, (i, j))
+                gj = z3.substitute(guard, (i, j))
+                if ai == bi:
+                    it.assume(z3.ForAll([i, j], z3.Implies(z3.And(guard, gj, i != j), a != bj)))
+                elif ai < bi:
+                    it.assume(z3.ForAll([i, j], z3.Implies(z3.And(guard, gj), a != bj)))
+        it.alive = alive_fin
+        it.notes.add("comprehensions that allocate: the objects of iteration i are Skolem functions of i; final heap = old heap + per-iteration initialisations")
 
     def nested_comp(self, it, node, fr, spec_mode=False):
         """[e for r in rows for t in r]: abstracted by membership (the multiset / order of the
